@@ -29,7 +29,7 @@ use crate::crypto::merkle::{DoubleMerkleProof, DoubleMerkleTree, SliceRoot};
 use crate::crypto::{Hash, hash};
 use crate::disseminator::rotor::{SamplingStrategy, StakeWeightedSampler};
 use crate::network::{Network, RepairRequesterNetwork, RepairResponderNetwork};
-use crate::shredder::{Shred, ShredIndex, ValidatedShred};
+use crate::shredder::{RegularShredder, Shred, ShredIndex, Shredder, ValidatedShred};
 use crate::types::SliceIndex;
 use crate::{BlockId, ValidatorIndex};
 
@@ -461,6 +461,13 @@ where
                     warn!("repair response (Shred) with invalid Merkle proof or signature");
                     return;
                 };
+                // NOTE: The data/coding tag is covered by neither the Merkle proof nor the
+                // signature, so a peer can flip it on an otherwise authentic shred and the
+                // blockstore would refuse it. Keep waiting for a correct response instead.
+                if validated.is_data() != (*index < RegularShredder::DATA_OUTPUT_SHREDS) {
+                    warn!("repair response (Shred) with type tag not matching the shred index");
+                    return;
+                }
                 self.outstanding_requests.remove(&request_hash);
 
                 // store shred
